@@ -226,6 +226,11 @@ def run(ctx):
             if isinstance(n, ast.Assign) and any(self_attr(t) in shared for t in n.targets):
                 flush = m
     if flush is None:
+        # the flusher reads the shared list but never installs a new one: there is no swap to judge - the clause below reports that
+        for m in flusher_side:
+            if any(self_attr(n) in shared for n in ast.walk(m.node)):
+                flush = m
+    if flush is None:
         raise AnalysisError('anchor-lost role=buffer swap')
     swap_sites = [n for m in flusher_side for n in ast.walk(m.node) if isinstance(n, ast.Assign) and any(self_attr(t) in shared for t in n.targets)
                   and isinstance(n.value, (ast.List, ast.Call))]
